@@ -288,22 +288,23 @@ def check_schema_property(ctx, dialect, real_json, explicit, inp, where):
         cn = [c['name'] for c in t['columns']]
         if len(set(cn)) != len(cn): problems.append(('duplicate-column', t['name'], cn))
         objs += [i['name'] for i in t['indexes'] if i['name'] is not None] + [f['name'] for f in t['fks'] if f['name'] is not None]
-        for nm in cn + [i['name'] for i in t['indexes']] + [f['name'] for f in t['fks']] + [t['name']]:
-            if nm is not None and len(nm) > m and nm not in explicit: problems.append(('too-long', nm))
+        for kind, nms in (('column', cn), ('index', [i['name'] for i in t['indexes']]), ('fk', [f['name'] for f in t['fks']]), ('table', [t['name']])):
+            for nm in nms:
+                if nm is not None and len(nm) > m and nm not in explicit: problems.append(('too-long', nm, kind))
     if len(set(objs)) != len(objs): problems.append(('duplicate-object-name', sorted(o for o in set(objs) if objs.count(o) > 1)))
     for pr in problems:
         kind = pr[0]
         if kind == 'too-long':
             ctx.count('derived-name-too-long:' + dialect)
             ctx.violation('%s: a derived (not user-given) name is longer than max_name_len=%d' % (where, m), {'dialect': dialect, 'input': inp, 'name': pr[1], 'len': len(pr[1])},
-                          observed=len(pr[1]), expected='<= %d' % m, key='derived-name-too-long:' + classify_long(pr[1]))
+                          observed=len(pr[1]), expected='<= %d' % m, key='derived-name-too-long:' + classify_long(pr[1], pr[2]))
         else:
             ctx.violation('%s: accepted schema has %s' % (where, kind), {'dialect': dialect, 'input': inp, 'detail': pr[1:]}, key='accepted-' + kind)
 
-def classify_long(nm):
-    if re.search(r'_\d+$', nm) and not nm.endswith('_2'): return 'm2m-table-suffix'
-    if nm.endswith('_2'): return 'suffix-_2'
-    return 'other'
+def classify_long(nm, kind):
+    if kind == 'table' and re.search(r'_\d+$', nm): return 'm2m-table-suffix'
+    if kind == 'column' and nm.endswith('_2'): return 'column-suffix-_2'
+    return kind
 
 def ops_tie(ctx):
     rng = ctx.rng
@@ -710,10 +711,26 @@ def ddl_oracle(ctx, spec, src, dialect, res, decls):
     for nm in sorted(idents):
         if len(nm) > m and nm not in explicit:
             if nm in names_in_schema: continue     # reported by check_schema_property
-            kind = 'oracle-sequence-trigger' if dialect == 'oracle' and (nm.endswith('_SEQ') or nm.endswith('_BI')) else 'other'
+            kind = 'other'
+            if dialect == 'oracle' and (nm.endswith('_SEQ') or nm.endswith('_BI')):
+                base = nm[:-4] if nm.endswith('_SEQ') else nm[:-3]
+                if len(base) > m: continue         # the table name itself is an over-long explicit / suffixed name
+                kind = 'oracle-sequence-trigger'
             ctx.count('ddl-identifier-too-long:' + kind)
             ctx.violation('%s DDL contains a derived identifier longer than max_name_len=%d' % (dialect, m), dict(inp, identifier=nm), observed=len(nm),
                           expected='<= %d' % m, key='ddl-identifier-too-long:' + kind)
+    # creation script: every foreign key is added exactly once, after both of its tables
+    if dialect != 'sqlite':
+        created = set(); emitted = []
+        fk_tables = {(t['name'], f['name']): f['parent'] for t in real['tables'] for f in t['fks']}
+        for c in real['script_all']:
+            if c['k'] == 'table': created.add(c['t'])
+            elif c['k'] == 'fk':
+                emitted.append((c['t'], c['n']))
+                if c['t'] not in created or fk_tables.get((c['t'], c['n'])) not in created:
+                    ctx.violation('creation script adds a foreign key before both of its tables exist', dict(inp, fk=c), observed=sorted(created), key='fk-before-table')
+        if sorted(emitted) != sorted(fk_tables):
+            ctx.violation('creation script does not add every foreign key exactly once', inp, observed=sorted(emitted), expected=sorted(fk_tables), key='fk-not-once')
     # every table / column / named non-unique index / foreign key of the schema is emitted under its name
     for t in real['tables']:
         want = [t['name']] + [c['name'] for c in t['columns']] + [i['name'] for i in t['indexes'] if i['name'] and not i['isPk'] and not (i['unique'] and len(i['cols']) == 1)]
@@ -818,7 +835,30 @@ def witnesses(ctx):
         except Exception as e:
             ctx.violation('SQLite: generate_mapping accepts names that differ only in letter case, then table creation fails (%s: %s)' % (exc_cls(e), str(e)[:120]),
                           {'source': src}, observed=exc_cls(e), expected='rejection by generate_mapping, or successful creation', key=key)
-    # creation order: a table that merely depends on a cycle is created before its parent
+    # witness of C26_len_full_false (Lean: `lenWitness`), and its table-name variant: suffixes appended after normalisation
+    n29 = 'A' + 'a' * 28
+    a14 = 'A' + 'a' * 13; b15 = 'B' + 'b' * 14
+    LEN = [
+        ('column-suffix-_2', 'oracle', "class %s(db.Entity):\n    x = Set('%s', reverse='x', fk_name='f1', reverse_fk_name='f2')\n" % (n29, n29)),
+        ('m2m-table-suffix', 'oracle',
+         ("class %s(db.Entity):\n    x = Set('%s', reverse='p', fk_name='f1', index='i1')\n    y = Set('%s', reverse='q', fk_name='f3', index='i3')\n"
+          "class %s(db.Entity):\n    p = Set('%s', reverse='x', fk_name='f2', index='i2')\n    q = Set('%s', reverse='y', fk_name='f4', index='i4')\n") % (a14, b15, b15, b15, a14, a14)),
+    ]
+    for kind, dialect, src in LEN:
+        db = TestDatabase(); db.bind(dialect, ':memory:')
+        exec(HEADER + src, {'db': db})
+        ctx.case(['witness', 'len', kind], kind='witness')
+        try:
+            Database.generate_mapping(db, create_tables=False, check_tables=False)
+        except Exception as e:
+            ctx.note('length witness %s is now rejected by generate_mapping (%s)' % (kind, exc_cls(e))); continue
+        real = real_schema_json(db.schema)
+        decls = extract_decls(db); finish_decls(decls)
+        before = len(ctx.violations) + len(ctx.known_hits)
+        check_schema_property(ctx, dialect, real, explicit_names(decls), {'source': src}, 'generate_mapping')
+        if len(ctx.violations) + len(ctx.known_hits) == before:
+            ctx.note('length witness %s: all derived names now fit' % kind)
+    # creation order: a table that merely depends on a cycle
     p = provider('postgres')
     schema = p.dbschema_cls(p)
     for t in 'abc':
